@@ -204,10 +204,12 @@ class _Enum:
             for pre, explicit in raise_prefixes:
                 for h in st.handlers:
                     results += self.block(h.body, pre + [Ev('except', h)])
-                if explicit:
-                    # an explicit raise may also not be caught
-                    if not _catches_all(st.handlers):
+                # the exception may also be one that no handler catches
+                if not _catches_all(st.handlers):
+                    if explicit:
                         results.append((pre, 'raise'))
+                    else:
+                        results.append((pre + [Ev('raise', pre[-1].node, 'implicit')], 'raise'))
         else:
             for pre, explicit in raise_prefixes:
                 if explicit:
